@@ -11,8 +11,8 @@ LEVEL = "proof"
 LEAN_MODULES = ["Sonic.Props.C11"]
 REQUIRED_THEOREMS = ["Sonic.Props.C11." + n for n in ["C11_in_bounds", "C11_slice", "C11_termination", "C11_kbuf", "C11_getNextToken",
                                                          "C11_skipString", "C11_skipContainer", "C11_skipSpaceSafe"]]
-CONFIGS = [("avx2", "san"), ("sse", "san"), ("avx2", "prod"), ("sse", "prod")]
-CONFIGS_THOROUGH = CONFIGS + [("dyn", "san"), ("dyn", "prod")]
+CONFIGS = [("avx2", "san"), ("sse", "san"), ("avx2", "prod"), ("sse", "prod"), ("dyn", "san"), ("dyn", "prod")]
+CONFIGS_THOROUGH = CONFIGS
 RULE = ("arbitrary byte strings: lengths 0,1,15,16,17,31,32,33,63..67,127..130 and random; every prefix of valid texts; single-byte "
         "mutations; unterminated strings / keys / containers cut at every byte; keys with truncated or malformed escapes; token soup over "
         "the structural alphabet - each with root, existing, missing and random paths; buffer placed in an exact-size heap block (sanitizer "
